@@ -5,10 +5,16 @@ Model of poly/seqhash: boothLeastRotation, RotateSequence, Hash.
 
 `booth` follows the Go loop statement by statement over the doubled string.  The failure
 slice is stored shifted by one (`g = failure + 1`, so Go's `-1` is `0`) to stay in `Nat`.
-Every index expression is bounds-checked: `none` = Go would panic (index out of range).
-The inner `for failure != -1 && …` loop is run with fuel `characterIndex + 1`
-(`booth_safe` in Props/C12Booth shows that no index is out of range and the fuel is never
-exhausted; `booth_least` there shows `rotateSequence s = some (Spec.leastRotation s)`).
+Every index expression is bounds-checked in BOTH directions: `none` = Go would panic with an
+index out of range, above the length (`S[x]?`, `g[x]?`, the explicit size tests before a write) or
+below zero (the explicit `≤` guards before every subtraction: `Nat` subtraction truncates, Go's
+`int` would go negative).  One guard is slightly stronger than a panic: the assignment
+`leastRotationIndex = characterIndex - failure - 1` is `none` when it would make the index
+NEGATIVE (Go would only panic at its next use).  So `none` covers every state in which Go panics;
+`booth_safe` (Props/C12Booth) proves `none` never occurs, hence the Go loop never panics.
+The inner `for failure != -1 && …` loop is run with fuel `characterIndex + 1`; fuel exhaustion is
+`none` as well (`booth_safe`: it never happens; `booth_least` there shows
+`rotateSequence s = some (Spec.leastRotation s)`).
 
 `hash` takes the digest function as a parameter (`blake`); the theorems hold for every
 digest, the correspondence check instantiates it with the Lean BLAKE3 of Base/Blake3.
@@ -30,6 +36,7 @@ def boothInner (S : Array Char) (g : Array Nat) (c : Char) (j : Nat) : Nat → N
     | none => none
     | some d =>
       if c = d then some (k, i) else
+      if c.toNat < d.toNat ∧ j < i then none else   -- `characterIndex - failure - 1` would be negative
       let k' := if c.toNat < d.toNat then j - i else k
       match g[i - 1]? with
       | none => none
@@ -38,15 +45,16 @@ def boothInner (S : Array Char) (g : Array Nat) (c : Char) (j : Nat) : Nat → N
 /-- one iteration of the outer loop at `characterIndex = j` -/
 def boothStep (S : Array Char) (st : BoothState) (j : Nat) : Option BoothState := do
   let c ← S[j]?
-  let i0 ← st.g[j - st.k - 1]?
+  -- `failureSlice[characterIndex-leastRotationIndex-1]`: a negative index panics
+  let i0 ← if st.k + 1 ≤ j then st.g[j - st.k - 1]? else none
   let (k, i) ← boothInner S st.g c j (j + 1) st.k i0
   let d ← S[k + i]?
   if c ≠ d then
     -- here i = 0 (the inner loop ended on failure = -1), so S[k+i] = S[k]
     let k' := if c.toNat < (← S[k]?).toNat then j else k
-    if j - k' < st.g.size then some { k := k', g := st.g.set! (j - k') 0 } else none
+    if k' ≤ j ∧ j - k' < st.g.size then some { k := k', g := st.g.set! (j - k') 0 } else none
   else
-    if j - k < st.g.size then some { k := k, g := st.g.set! (j - k) (i + 1) } else none
+    if k ≤ j ∧ j - k < st.g.size then some { k := k, g := st.g.set! (j - k) (i + 1) } else none
 
 /-- `boothLeastRotation` -/
 def booth (s : Str) : Option Nat :=
